@@ -4,10 +4,15 @@ C01 — Every breach of an accepted appointment is answered with its penalty.
 Stated on the per-appointment step of the two loops of `Watcher::handle_breaches` (`breachStep`)
 and on `Responder::handle_breach`, for every state, appointment, dispute and node behaviour; the
 loops visit every appointment row whose locator matches (`uuidsWithLoc`), which the lifting lemma
-`every_matching_row_visited` states. History-level agreement of the loops with the real code is
-what the correspondence run checks (same histories, same databases, same RPC logs).
+`every_matching_row_visited` states; the block-level and history-level statements at the end
+(`every_breach_in_a_block_is_answered`, `breaches_answered_in_every_history`,
+`only_breached_appointments_are_touched`) compose them over both loops. Agreement of the loops with
+the real code is what the correspondence run checks (same histories, same databases, same RPC logs).
 -/
 import TeosVerif.Lemmas.Tower
+import TeosVerif.Gen.Calls
+import TeosVerif.Lemmas.TowerBreach
+import TeosVerif.Lemmas.TowerInv
 
 namespace Teos.C01
 open Teos
@@ -131,5 +136,70 @@ example :
     let s1 := (addAppointment s node (some 7) 4 (.enc 64 80 300) 20 5).1
     let r := connectBlock cfg s1 node 200 101 [64]
     r.2 = [.get 80, .send 80] ∧ getAppointment r.1 (some 7) 4 = .tracker 64 80 := ⟨rfl, rfl⟩
+
+/-! ### a whole block, a whole history -/
+
+/-- **every_breach_in_a_block_is_answered**: when a block is connected, for EVERY appointment still held
+once the gatekeeper has purged expired users (any number of them, any users, shared locators), whose
+locator is the locator of a transaction of the block and whose blob decrypts under that transaction id,
+the penalty has been dealt with before the watcher finishes the block: it is in the responder's
+100-block index, or the node was asked about it and it is in the mempool, was submitted now, or had
+been submitted since the previous block. No assumption on the node's answers or on aborts. -/
+theorem every_breach_in_a_block_is_answered (cfg : Cfg) (s : Tower) (node : Node) (b height : Nat)
+    (txs : List TxId) (d p : TxId) (k : Uuid) (a : Appt) (hdm : d ∈ txs)
+    (hk : k ∈ (gkConnect cfg s height).db.apptKeys) (ha : (gkConnect cfg s height).db.appts k = some a)
+    (hl : k.1 = locOf d) (hd : a.blob.decrypt d = some p) :
+    Answered (gkConnect cfg s height) node (connectBlock cfg s node b height txs).2 p := by
+  have h := watcherConnect_answers (gkConnect cfg s height) node b height txs d p k a hdm hk ha hl hd
+  unfold connectBlock
+  simp only
+  exact h.mono (fun r hr => List.mem_append.2 (Or.inl hr))
+
+/-- **breaches_answered_in_every_history**: the same in the state reached by ANY valid history from a
+consistent database (there the key list is known to cover every row): every breach of a held
+appointment in the next block is answered within that block. -/
+theorem breaches_answered_in_every_history (cfg : Cfg) (db : Db) (height0 : Nat) (blocks : List (Nat × List TxId))
+    (hdb : DbInv db) (hnd : (blocks.map (·.1)).Nodup) (hist : List (Node × Op))
+    (hv : HistoryValid cfg (boot db height0 blocks) hist)
+    (node : Node) (b height : Nat) (txs : List TxId) (d p : TxId) (k : Uuid) (a : Appt) (hdm : d ∈ txs) :
+    let s := runHistory cfg (boot db height0 blocks) hist
+    (gkConnect cfg s height).db.appts k = some a → k.1 = locOf d → a.blob.decrypt d = some p →
+    Answered (gkConnect cfg s height) node (connectBlock cfg s node b height txs).2 p := by
+  intro s ha hl hd
+  have hinv := tinv_history cfg hist _ (tinv_boot db height0 blocks hdb hnd) hv
+  have hgk := (tinv_gkConnect cfg s height hinv).1
+  exact every_breach_in_a_block_is_answered cfg s node b height txs d p k a hdm
+    (hgk.db.appt_keys k (by rw [ha]; rfl)) ha hl hd
+
+/-- **only_breached_appointments_are_touched**: while handling a block the watcher leaves every
+appointment and tracker whose locator is not the locator of a transaction of that block exactly as it
+was ("only that appointment is dropped"), whatever the other appointments, the node or the blobs do. -/
+theorem only_breached_appointments_are_touched (s : Tower) (node : Node) (b height : Nat) (txs : List TxId)
+    (k' : Uuid) (hk' : ∀ d, d ∈ txs → k'.1 ≠ locOf d) :
+    (watcherConnect s node b height txs).1.db.appts k' = s.db.appts k' ∧
+    (watcherConnect s node b height txs).1.db.trackers k' = s.db.trackers k' :=
+  watcherConnect_untouched s node b height txs k' hk'
+
+/-- non-vacuity: two users with the same locator, a third with another; one block breaches both -/
+example :
+    let cfg : Cfg := { slots := 3, duration := 10, grace := 3 }
+    let node : Node := { send := fun _ => .ok, get := fun _ => .rpc (-5) }
+    let s0 := (register cfg (register cfg (boot Db.empty 100 []) 7).1 8).1
+    let s1 := (addAppointment s0 node (some 7) 4 (.enc 64 80 300) 20 5).1
+    let s2 := (addAppointment s1 node (some 8) 4 (.enc 64 81 300) 20 5).1
+    let r := connectBlock cfg s2 node 200 101 [64]
+    Rpc.send 80 ∈ r.2 ∧ Rpc.send 81 ∈ r.2 := by decide
+
+/-- **breach_call_sites_are_the_modelled_ones** (tie to the source, regenerated on every run): the
+responder is handed breaches only by `Watcher::handle_breaches` and `store_triggered_appointment`;
+trackers are created only by `handle_breach` (through `add_tracker`, the only caller of the database's
+`store_tracker`); the mempool is consulted only there. -/
+theorem breach_call_sites_are_the_modelled_ones :
+    Gen.Calls.handleBreach = [("watcher", "store_triggered_appointment", ""), ("watcher", "handle_breaches", "")] ∧
+    Gen.Calls.addTracker = [("responder", "handle_breach", "")] ∧
+    Gen.Calls.storeTracker = [("responder", "add_tracker", "")] ∧
+    Gen.Calls.carrierInMempool = [("carrier", "in_mempool", ""), ("responder", "handle_breach", "")] ∧
+    Gen.Calls.getRaw = [("carrier", "in_mempool", "")] := by
+  decide
 
 end Teos.C01
